@@ -364,6 +364,9 @@ LATEX_DISCREPANCIES = {
     ("Ext2Mul", "Ext2Mul|s2'-s0*s3-s1*s2-s1*s3"): "docs field_ops.md EXT2MUL third formula has a sign/term typo; handler op_ext2mul sets s2' = (s1+s0)(s2+s3) - s1*s3 = s0s2+s0s3+s1s2, "
                                   "which is the code's constraint",
     ("U32sub", "U32sub|-s0+s1-4294967296*s0'-s1'"): "docs u32_ops.md U32SUB first formula has the sign of the borrow term flipped; handler op_u32sub: s1 + 2^32*borrow = s0 + diff is the code's constraint",
+    ("U32add", "U32add|-hlp2+s0'"): "docs u32_ops.md U32ADD write s0' = h2; the code enforces s0' = 2^16*h3 + h2 (the common limb-aggregation constraint). Together with "
+                                    "a + b = 2^48*h3 + 2^32*h2 + 2^16*h1 + h0, 16-bit range checks of h0..h3 and a, b < 2^32 (a + b < 2^33) this forces h3 = 0, so both forms are equivalent on the operation's domain",
+    ("U32add3", "U32add3|-hlp2+s0'"): "same as U32ADD: a + b + c < 3*2^32 forces h3 = 0 under the limb decomposition and the range checks",
     ("U32div", "U32div|-1-65536*hlp2-hlp3+s0-s0'"): "docs u32_ops.md U32DIV third formula swaps the limb weights (2^16*h2 + h3); add_range_checks puts the low limb in h2, as the code's constraint has it",
 }
 
